@@ -5,6 +5,8 @@ import TsVerif.C03.DynLemmas
 import TsVerif.C03.PrattLemmas
 import TsVerif.C03.Sound
 import TsVerif.C03.Relate
+import TsVerif.C03.Complete
+import TsVerif.C03.Cover
 import TsVerif.C03.Judge
 /-!
 # C03 — A generated parser recognises exactly its grammar and builds its derivation
@@ -131,6 +133,68 @@ theorem parser_sound_per_grammar (g : Grammar) (tbl : Table) (aux : AuxMap) (hsa
     DerivesTok g (.sym g.start) ((toks.filter fun a => !isExtraSym tbl a).map (tokOf tbl)) :=
   parser_sound g tbl aux hsafe hrel toks hnz t h
 
+/-- `table_complete_for_its_productions`: the converse of `driver_sound`.  `P` is a set of productions
+over the table's symbols, `ann` an LR(1)-style annotation of the states (items with look-aheads, where
+an item may say that a symbol stands at the dot in place of a hidden rule whose unit reduction the
+generator removed; `nullable`/`first` sets) computed by an untrusted propagation, `allow` the shape of
+trees the claim is about (all trees, or left-nested repeats).  If the decidable `completeOK` holds
+(start items in state 1; shift / goto into a state holding the advanced item; closure under the
+allowed productions for every look-ahead that can follow; the single effective reduce on the
+look-ahead of a complete item; `first`/`nullable` closed under `P`), then EVERY derivation tree of the
+start symbol over `P` is accepted by the driver (with enough fuel) — no string such a tree yields
+is rejected, for all trees.  (Token strings without extra tokens; deterministic cells; tables
+without non-terminal extras.) -/
+theorem table_complete_for_its_productions (tbl : Table) (P : List Prod) (allow : Allow) (ann : Ann) (start : Nat)
+    (hok : completeOK tbl P allow ann start = true) (pid : Nat) (ks : List DT)
+    (hv : (DT.node start pid ks).Valid tbl P allow) :
+    ∃ f pt, runLoop tbl f { stack := [], toks := (DT.node start pid ks).yield } = .accepted pt :=
+  table_complete tbl P allow ann start hok pid ks hv
+
+/-- `grammar_covered_by_productions`: from `grammar.json` to a production set `P` over the table's
+symbols.  `coverOK g tbl aux P start` (decidable) says: for every non-terminal of the table, every
+symbol sequence in the canonical flattening `expand` of its source rule (choices multiplied out, a
+repeat replaced by its auxiliary symbol or nothing, inlined rules substituted, names resolved to the
+table's symbols) is a production of `P`; an auxiliary symbol `R` of the rule `a` has `R → R R` and every
+flattening of `a`; terminal names are distinct.  Then every derivation of the start rule in the
+token-level semantics `DerivesTok` has a derivation tree over `P` (left-nested repeats: `auxAllow`)
+with the same token string. -/
+theorem grammar_covered_by_productions (g : Grammar) (tbl : Table) (aux : AuxMap) (P : List Prod) (start : Nat)
+    (h : coverOK g tbl aux P start = true) (w : List Tok) (hd : DerivesTok g (.sym g.start) w) :
+    ∃ pid ks, (DT.node start pid ks).Valid tbl P (auxAllow aux) ∧ (DT.node start pid ks).yield.map (tokOf tbl) = w :=
+  grammar_cover g tbl aux P start h w hd
+
+/-- `parser_complete_per_grammar`: the converse of `parser_sound_per_grammar`, per validated
+(grammar, table) pair and for ALL token strings without extra tokens: `string ∈ L(G) ⇒ the driver
+accepts`.  `coverOK` relates `grammar.json` to `P`, `completeOK` validates the real table against `P`
+(both decidable, both evaluated by the check on every generated grammar in scope). -/
+theorem parser_complete_per_grammar (g : Grammar) (tbl : Table) (aux : AuxMap) (P : List Prod) (ann : Ann) (start : Nat)
+    (hcov : coverOK g tbl aux P start = true) (hok : completeOK tbl P (auxAllow aux) ann start = true)
+    (toks : List Nat) (htoks : ∀ a, a ∈ toks → a < tbl.tokenCount ∧ a ≠ 0)
+    (hd : DerivesTok g (.sym g.start) (toks.map (tokOf tbl))) :
+    ∃ f pt, runLoop tbl f { stack := [], toks := toks } = .accepted pt :=
+  parser_complete g tbl aux P ann start hcov hok toks htoks hd
+
+/-- `parser_recognises_exactly_its_grammar`: both halves together.  For a (grammar, table) pair that
+passes the four decidable validations, and every string of non-extra terminals: the driver accepts
+the string (with some amount of fuel) iff the grammar's start rule derives it. -/
+theorem parser_recognises_exactly_its_grammar (g : Grammar) (tbl : Table) (aux : AuxMap) (P : List Prod) (ann : Ann) (start : Nat)
+    (hsafe : tableSafe tbl = true) (hrel : relOK g tbl aux = true)
+    (hcov : coverOK g tbl aux P start = true) (hok : completeOK tbl P (auxAllow aux) ann start = true)
+    (toks : List Nat) (htoks : ∀ a, a ∈ toks → a < tbl.tokenCount ∧ a ≠ 0 ∧ isExtraSym tbl a = false) :
+    (∃ f pt, runLoop tbl f { stack := [], toks := toks } = .accepted pt) ↔
+      DerivesTok g (.sym g.start) (toks.map (tokOf tbl)) := by
+  constructor
+  · rintro ⟨f, pt, h⟩
+    have := parser_sound_fuel g tbl aux hsafe hrel toks (fun a ha => (htoks a ha).2.1) pt f h
+    have hf : (toks.filter fun a => !isExtraSym tbl a) = toks := by
+      apply List.filter_eq_self.mpr
+      intro a ha
+      simp [(htoks a ha).2.2]
+    rw [hf] at this
+    exact this
+  · intro hd
+    exact parser_complete g tbl aux P ann start hcov hok toks (fun a ha => ⟨(htoks a ha).1, (htoks a ha).2.1⟩) hd
+
 /-- `glr_yield`: for cells with several actions the model follows every action (`parseAll`); each
 accepting run yields a tree whose leaves are exactly the token string — in particular the tree
 `selectBest` keeps (`selectBest_mem`). -/
@@ -206,13 +270,31 @@ def tinyTable : Table :=
 
 example : tableClosed tinyTable = true := by decide
 example : tableSafe tinyTable = true := by decide
+/-- the completeness premise on the tiny table: `S → a`, items `[S → . a, $]` in state 1, `[S → a ., $]` in state 2 -/
+def tinyAnn : Ann :=
+  { items := #[[], [⟨2, [1], 0, 0, 0, none⟩], [⟨2, [1], 0, 1, 0, none⟩], []], nullable := [], first := [(2, [1])] }
+example : completeOK tinyTable [(2, [1], 0)] (fun _ _ _ => true) tinyAnn 2 = true := by decide
+example : (DT.node 2 0 [DT.leaf 1]).Valid tinyTable [(2, [1], 0)] (fun _ _ _ => true) := by
+  simp [DT.Valid, DT.ValidL, DT.sym, allowedAt, DT.prod?, tinyTable]
 example : (∀ a, a ∈ [1] → a ≠ 0) := by decide
+/-- both directions on a tiny pair: the grammar `s: 'a'`… is a token rule, so use `s: seq('a')` = `'a'` under a field -/
+def tinyNamed : Table :=
+  { tinyTable with syms := #[⟨false, true, false, 0, "end"⟩, ⟨true, false, false, 1, "a"⟩, ⟨true, true, false, 2, "s"⟩] }
+def tinyG : Grammar := { name := "t", rules := [("s", .field "f" (.str "a"))] }
+example : coverOK tinyG tinyNamed [] [(2, [1], 0)] 2 = true := by decide
+example : completeOK tinyNamed [(2, [1], 0)] (auxAllow []) tinyAnn 2 = true := by decide
+example : relOK tinyG tinyNamed [] = true := by decide
+example : tableSafe tinyNamed = true := by decide
+/-- a production set that lacks the rule's only production is not a cover -/
+example : coverOK tinyG tinyNamed [] [(2, [1, 1], 0)] 2 = false := by decide
 example : (match run tinyTable [1] with | .accepted t => t.leaves == [1, 0] | _ => false) = true := by decide
 example : (match run tinyTable [1, 1] with | .rejected _ => true | _ => false) = true := by decide
 
 /-- a table that is NOT closed (the reduce pops 2 entries but only 1 can be on the stack) is rejected by the check -/
 def badTable : Table := { tinyTable with acts := #[[], [(1, [.shift 2 false false])], [(0, [.reduce 2 2 0 0])], [(0, [.accept])]] }
 example : tableClosed badTable = false := by decide
+/-- …and the completeness premise fails on it: the complete item `[S → a ., $]` does not find its reduce -/
+example : completeOK badTable [(2, [1], 0)] (fun _ _ _ => true) tinyAnn 2 = false := by decide
 example : (match run badTable [1] with | .fault .popBelowBase => true | _ => false) = true := by decide
 
 def tinyGrammar : Grammar :=
